@@ -4,7 +4,7 @@ from __future__ import annotations
 
 from fv import cppharness, managed_cpp
 
-KEYID = {"a": 0, "b": 1}
+KEYID = {"a": 0, "b": 1, "n": 2}
 
 
 def cases(tier, seed):
@@ -47,7 +47,8 @@ def terms_from_log(entries, id2term, has_ctl, has_cal, calv, fails, ctx):
         else:
             _, nid, key, zid, inid, cal = e
             s = id2term[inid]
-            id2term[nid] = ("S", key, ("Z", zid), s, s)
+            if nid != inid:  # nid == inid: the reading was rejected, estimate passed through unchanged
+                id2term[nid] = ("S", key, ("Z", zid), s, s)
         if cal != (calv if has_cal else -1):
             fails.append(("calibration-not-forwarded:cpp", f"filter call received calibration {cal}, constructed with {calv}: {ctx}"))
 
@@ -121,6 +122,7 @@ int main(){ formak::runtime::ManagedFilter<I> mf(0.0, SV{}); %s return 0; }
             ri += 1
             terms_from_log(log, id2term, has_ctl, has_cal, calv, bad, hist)
             rr = [(rt, KEYID[key], z) for rt, key, z in readings]
+            held_before = held[0]
             held, exp = c11.ref_tick(held[0], held[1], o, rr, 3 if has_ctl else None, data_of)
             if ti < len(hist) - 1:
                 continue  # prefix ticks were checked as their own history
@@ -135,7 +137,10 @@ int main(){ formak::runtime::ManagedFilter<I> mf(0.0, SV{}); %s return 0; }
             # same call sequence as the Python runtime for the same history
             _, impl, _ = c11.run_history(hist, t0, ctl_py)
             py_calls = collapse(impl.calls)
-            cpp_calls = collapse([("P", e[2]) if e[0] == "P" else ("S", "ab"[e[2]]) for r in recs[ri - len(hist):ri] for e in r[1]])
+            cpp_calls = collapse([("P", e[2]) if e[0] == "P" else ("S", "abn"[e[2]]) for r in recs[ri - len(hist):ri] for e in r[1]])
+            tick_calls = [("P", e[2]) if e[0] == "P" else ("S", "abn"[e[2]]) for e in log]
+            for k_, w_ in c11.check_moves(tick_calls, held_before, o, readings, "cpp"):
+                bad.append((k_, f"cpp combo{combo}: {w_}; history {hist}"))
             if not same_calls(py_calls, cpp_calls):
                 bad.append(("py-cpp-call-trace-differs", f"history {hist}: python calls {py_calls} vs C++ calls {cpp_calls}"))
         for k, w in bad[:2]:
